@@ -49,6 +49,9 @@ def remove_indentation(source: str) -> str:
             if indent_match is not None:  # this is just for you mypy
                 spaces.append(len(indent_match[0]))
 
+    if not spaces:
+        return source
+
     indent = min(spaces)
     lines = [l[indent:] for l in lines]
     return '\n'.join(lines)
